@@ -15,9 +15,30 @@ CLAIMS = {
         "note": NOTE_COMMON,
         "technique": "ast-based field-flow analysis over gated-SSA summaries of every adapter pair; wiring-graph order check",
     },
+    "C02": {
+        "text": "Static decision, for every object graph, of the structural clauses that make a written document closed under "
+                "reference: no conversion can write a store after it was snapshot (Python evaluation order incl. later "
+                "keyword arguments and super() results), every reference keyword goes through the owning adapter's "
+                "registration with the matching data class, sub-adapters share the collection's stores, ids are allocated "
+                "before insertion (dense tag ids keyed by the stored (key, value)), objects are stored after assembly in "
+                "insertion order, and only DataAdapter methods write the stores. Run-time distinctness of objects is trusted.",
+        "design_ref": "DESIGN.md section 3, C02 (R02.1-R02.6)",
+        "note": NOTE_COMMON,
+        "technique": "evaluation-order (may-execute-after) analysis of store snapshots vs conversions over the adapter wiring graph; who-may-write sweep",
+    },
+    "C18": {
+        "text": "Static decision of the parameter-flow and path-term clauses of audio-path relocation: audio_dir flows hop by hop "
+                "from io.save/io.load into the recording adapter of all 8 collection adapters; the stored path is "
+                "relative_to(audio_dir) iff a directory is given with the error propagating; the loaded path is "
+                "audio_dir / stored iff given; the conversion completes before the file is written. pathlib semantics trusted.",
+        "design_ref": "DESIGN.md section 3, C18 (R18.1-R18.3)",
+        "note": NOTE_COMMON,
+        "technique": "interprocedural parameter-flow closure over resolved callees and constructor wiring; gated-SSA path-term matching",
+    },
 }
 
+_DONE = set(CLAIMS)
 NOT_APPLICABLE = {f"C{i:02d}": "checker under construction in this session (static rules designed in DESIGN.md section 3); "
-                               "not yet claimed" for i in range(2, 21)}
+                               "not yet claimed" for i in range(1, 21) if f"C{i:02d}" not in _DONE}
 
-FIX_COMMITS = []
+FIX_COMMITS = ["c835c87 (C01 licence)", "7a83dd0 (C01 prediction-set sequences)", "531fadf (C02 evaluation tags)"]
